@@ -4,7 +4,8 @@ Model of the argument validation done by `publish()`, `subscribe()`,
 Strings are their UTF-8 byte lists (lengths in the code are taken after
 `.encode('utf-8')`, except the emptiness tests which agree on both).
 -/
-import Paho.Gen.Consts
+import Paho.Gen.ValidateConsts
+import Paho.Gen.Matcher
 import Paho.Model.Trie
 namespace Paho
 
